@@ -81,6 +81,12 @@ def odd_catalogue(ifaces):
         {"declare": None, "cattr": {"__providedBy__": V("int")}, "iattr": {"__provides__": V("int")}},
         {"declare": None, "cattr": {"__providedBy__": V("none"), "__provides__": V("provides", [i0])}},
         {"declare": None, "cattr": {"__providedBy__": V("partial")}},
+        # ... and an odd __provides__ that comes from the class (identical through the instance)
+        {"declare": None, "cattr": {"__providedBy__": V("int"), "__provides__": V("int")}},
+        {"declare": None, "cattr": {"__providedBy__": V("int"), "__provides__": V("str")}},
+        {"declare": None, "cattr": {"__providedBy__": V("partial"), "__provides__": V("partial")}},
+        {"declare": None, "cattr": {"__providedBy__": V("none"), "__provides__": V("none")}},
+        {"declare": [i0], "cattr": {"__provides__": V("int")}},
         {"declare": None, "cattr": {"__providedBy__": V("extends_raises")}},
         {"declare": None, "cattr": {"__providedBy__": V("bare_sb")}},
         {"declare": None, "cattr": {"__providedBy__": V("spec", i1)}},
@@ -366,7 +372,12 @@ def gen_matrix(rng):
     world, ifaces, classes = RG.gen_world(rng, n_ifaces=3, n_classes=2, n_objects=2)
     cat = odd_catalogue(ifaces)
     world["xifaces"] = [{"name": "IA", "module": "m", "bases": [], "adapt": None, "other": False},
-                        {"name": "IC", "module": "m", "bases": [], "adapt": ["none"], "other": False}]
+                        {"name": "IC", "module": "m", "bases": [], "adapt": ["none"], "other": False},
+                        # name order and module order disagree / equal names / equal keys
+                        {"name": "IA", "module": "n", "bases": [], "adapt": None, "other": False},
+                        {"name": "IB", "module": "a", "bases": [], "adapt": None, "other": False},
+                        {"name": "IB", "module": "a", "bases": [], "adapt": None, "other": False},
+                        {"name": "", "module": "z", "bases": [], "adapt": None, "other": False}]
     world["odd"] = cat
     I = ["S", ifaces[0]]
     X = ["X", 1]
@@ -405,6 +416,11 @@ def gen_matrix(rng):
             ["decl", "classImplements", f, [I]], ["decl", "implementer", f, [I]], ["decl", "provider", f, [I]],
         ]
     cases = []
+    operands = [["X", k] for k in range(6)] + [I, ["S", c0], ["N"], ["P", ["o", 0]]]
+    for a in operands:
+        for b in operands:
+            cases.append({"world": world, "ops": [["cmp", a, b], ["hash", a if a[0] in "XS" else I, b]], "matrix": True})
+    cases.append({"world": world, "ops": [["sort", operands[:8]], ["dict", operands[:7]]], "matrix": True})
     for k in range(len(cat)):
         for op in unary(["odd", k]) + unary(["oddc", k]):
             cases.append({"world": world, "ops": [["newreg", "push", []], op, copy.deepcopy(op)], "matrix": True})
@@ -783,6 +799,7 @@ def extra(run, impl, known):
         seen.setdefault(key, []).append(i)
     cov["divergence_signatures"] = {k: len(v) for k, v in seen.items()}
     done = 0
+    mine = []
     for key, idxs in sorted(seen.items()):
         if key in known:
             msg = "KNOWN-FINDING: property=%s %s [%s]" % (ID, known[key], key)
@@ -801,8 +818,14 @@ def extra(run, impl, known):
               "how_to_replay": "bin/check C10 --replay <this file>",
               "note": "ops are interpreted by harness/drivers/c10_driver.py (Interp.do); the last op is the first "
                       "one on which the two traces differ"}
+        before = len(run.violations)
         run.add_violation("C and Python traces differ: %s (program %d, %d ops after minimisation)"
                           % (key, i, len(small["ops"])), rp, "diff_%d" % i, no_input=False, key=key, known=known)
+        mine += run.violations[before:]
+        del run.violations[before:]
+    # the minimised differential witnesses first (the runner prints the first violation)
+    mine.sort(key=lambda v: v.get("n_ops", 0))
+    run.violations[:0] = mine
 
 
 RULE = ("API programs of 25-60 operations over a generated world (interface DAG, classes with implementer / "
